@@ -680,16 +680,28 @@ func (x *Exec) evalSpecCall2(sc *specCtx, e *ast.CallExpr) Value {
 	case "at":
 		// at(event, e): e in the heap as it was right after the (only) such lock acquisition / channel receive,
 		// i.e. once the writes of other goroutines published by it had become visible
-		need(2)
+		if len(e.Args) != 2 && len(e.Args) != 3 {
+			panic(engineErr("at(event, e [, occurrence]) expected"))
+		}
 		if sc.noGhost {
 			return PoisonV{}
 		}
 		evs := x.definiteEvents(sc, e.Args[0])
-		if len(evs) != 1 || evs[0].Heap == nil {
+		occ := 1
+		if len(e.Args) == 3 {
+			lit, ok := e.Args[2].(*ast.BasicLit)
+			if !ok {
+				panic(engineErr("at: occurrence must be a literal"))
+			}
+			occ, _ = strconv.Atoi(lit.Value)
+		} else if len(evs) != 1 {
+			return PoisonV{}
+		}
+		if occ < 1 || occ > len(evs) || evs[occ-1].Heap == nil {
 			return PoisonV{}
 		}
 		o := *sc
-		o.heap = evs[0].Heap
+		o.heap = evs[occ-1].Heap
 		return x.evalSpec(&o, e.Args[1])
 	case "local":
 		// local(x): the function's local variable x, even when a result/parameter of the same name shadows it
@@ -1837,6 +1849,27 @@ func sortStrings(s []string) {
 }
 
 // monitorHook: lock-protected invariants (see contracts `monitor`).
+// guardHavoc: `guards L: items` of the function under verification - at every acquisition of L the items hold
+// whatever other threads left there while L was free.
+func (x *Exec) guardHavoc(st *State, lock PtrV) {
+	if x.rootC == nil || len(x.rootC.Guards) == 0 || len(st.frames) == 0 {
+		return
+	}
+	root := st.frames[0]
+	sc := x.specCtxFor(st, root, root.pre)
+	for _, g := range x.rootC.Guards {
+		e, err := parseSpecExpr(g.Lock)
+		if err != nil {
+			panic(engineErr("guards lock %q: %v", g.Lock, err))
+		}
+		lp, ok := x.evalAddr(sc, e)
+		if !ok || x.ptrScalar(lp).S != x.ptrScalar(lock).S {
+			continue
+		}
+		x.havocItems(st, sc, g.Items)
+	}
+}
+
 func (x *Exec) monitorHook(st *State, fr *Frame, kind string, lock PtrV) {
 	if x.rootC == nil || len(x.rootC.Monitors) == 0 {
 		return
